@@ -5,8 +5,6 @@ import (
 	"sort"
 	"strings"
 
-	"github.com/onflow/cadence/common"
-
 	"verif/harness/core"
 	gen "verif/harness/gen/prog"
 	"verif/harness/host"
@@ -204,7 +202,7 @@ func runC01(c *core.Ctx) {
 		}
 		for i, tx := range txs {
 			preLedger, preUUID := h.Ledger.Clone(), h.UUID
-			o := h.RunTx(eng, tx.Source, nil, []common.Address{host.Addr(1)}, nil)
+			o := h.RunTx(eng, tx.Source, nil, signersFor(tx.Source), nil)
 			c.Eval(1)
 			if isCheckerRejection(o) {
 				if eng == host.EngI {
@@ -229,7 +227,7 @@ func runC01(c *core.Ctx) {
 					h2.Codes[k] = v
 				}
 				h2.UUID = preUUID
-				return h2.RunTx(eng, cand, nil, []common.Address{host.Addr(1)}, limited())
+				return h2.RunTx(eng, cand, nil, signersFor(cand), limited())
 			})
 			if done && eng == host.EngI {
 				c.Inc("tx_completed")
